@@ -182,6 +182,9 @@ def oracle(case, obs):
         return sc.broad_oracle(case, obs)
     if obs["raised"] not in ("none", "script", "kbd"):
         return f"do() raised: {obs['raised']}"
+    why = sc.clock_oracle(obs)
+    if why:
+        return why
     errs = check_calls(case, obs)
     if errs:
         return "; ".join(f"[{t}] {m}" for t, m in errs[:3])
